@@ -143,8 +143,13 @@ class Loader(importlib.machinery.SourceFileLoader):
         return instrument_source(data, path)
 
     def exec_module(self, module):
+        from . import state
         module.__dict__.update(HOOKS)
-        super().exec_module(module)
+        state.import_begins()
+        try:
+            super().exec_module(module)
+        finally:
+            state.import_ends(module)
 
 
 def _excluded(origin):
